@@ -373,7 +373,10 @@ pub fn skeleton_check(d: &Dom) -> Option<String> {
     let Some(html) = html else { return Some("document has no html element".into()) };
     let elems: Vec<usize> = d.nodes[html].children.iter().cloned().filter(|&c| d.is_element(c)).collect();
     let names: Vec<&str> = elems.iter().map(|&e| if d.elem(e).unwrap().0 == HTML_NS { d.elem(e).unwrap().1 } else { "#foreign" }).collect();
-    let ok = matches!(names.as_slice(), ["head", "body"] | ["head", "frameset"] | ["head", "frameset", "noframes"]);
+    // "optionally followed by noframes" is read as "any number of noframes elements": the
+    // after-frameset / after-after-frameset modes insert one per <noframes> start tag (DESIGN.md §4)
+    let ok = matches!(names.as_slice(), ["head", "body"])
+        || (names.len() >= 2 && names[0] == "head" && names[1] == "frameset" && names[2..].iter().all(|n| *n == "noframes"));
     if !ok {
         return Some(format!("element children of html are {names:?}"));
     }
